@@ -22,7 +22,9 @@ def run(c):
     c.rule = ("case 0: exhaustive grid strategy x shard count (1..12 quick, 1..64 thorough) x by-metric count x fixed keys x "
               "secondary keys x shard_num x metric ids; case 1: every (second mod 6, alive mask) incl. the uint32 wrap; "
               "other cases: random shard configurations (i%4=0), random 6-second replica windows (i%4=1), and schedules of "
-              "clock advances / sends against a REAL Aggregator (advanceRecentBuckets + handleSendSourceBucket, i%4=2,3). "
+              "clock advances (forward, back, jumps) / run-time ShortWindow changes (+-1, +-2, anywhere in 3..MaxShortWindow, "
+              "set the way the remote config sets configR) / sends against a REAL Aggregator (advanceRecentBuckets + "
+              "handleSendSourceBucket, i%4=2,3). "
               "non-trivial = the two grids, shard cases with a secondary shard, replica windows, aggregator schedules that "
               "saw a recent accept, a rounded accept and a historic accept; distinct by op-sequence hash")
     c.assumptions += [
@@ -71,7 +73,9 @@ META = {
              "is owned by this replica and at most 2 s later, or under its own time in the historic map (filed_in_own_bucket); "
              "filed_general / round_general drop the hypothesis t+2 < 2^32 and state what the code does at the uint32 wrap "
              "(the last two seconds can be filed into bucket 0..2, witness by decide and in the correspondence). "
-             "Timestamp independence (shard_ignores_ts): Key.MarshalAppend is modelled byte for byte (op 'key'), the bytes "
+             "window_always_contiguous: for ANY sequence of ticks with ANY ShortWindow values (raised or lowered at run time) "
+             "and any clock values the recent window stays a run of consecutive seconds (advance_window_any is the one-step "
+             "form, without the old length assumption). Timestamp independence (shard_ignores_ts): Key.MarshalAppend is modelled byte for byte (op 'key'), the bytes "
              "Key.XXHash hashes are marshal[4:], and for every hash function two keys differing only in the timestamp get "
              "the same primary, flag and secondary; tags_hash_lt_count: with a 64-bit hash the tags_hash shard is below the "
              "by-metric count and accepted. The model is tied to the code by replaying generated cases on the real "
